@@ -109,6 +109,7 @@ type stateless struct {
 	applier  *operationapplier.Applier
 	composer *doccomposer.DocumentComposer
 	didT     *didtransformer.Transformer
+	didT2    *didtransformer.Transformer // another option set: every thread's document has a key of another type
 	docT     *doctransformer.Transformer
 	ver      *verprovider.ClientVersionProvider
 	inputs   [][]byte
@@ -257,7 +258,8 @@ func All() []Scenario {
 	out = append(out, Scenario{Name: "stateless-components", Kind: "stateless",
 		Setup: func() any {
 			p := ops.Proto()
-			st := &stateless{parser: operationparser.New(p), composer: doccomposer.New(), didT: didtransformer.New(didtransformer.WithBase(true)), docT: doctransformer.New()}
+			st := &stateless{parser: operationparser.New(p), composer: doccomposer.New(), didT: didtransformer.New(didtransformer.WithBase(true), didtransformer.WithMethodContext([]string{"https://method.example/ctx/v1", "https://method.example/ctx/v2"})),
+				didT2: didtransformer.New(didtransformer.WithMethodContext([]string{"https://method.example/ctx/v1", "https://method.example/ctx/v2", "https://method.example/ctx/v3", "https://method.example/ctx/v4"})), docT: doctransformer.New()}
 			st.applier = operationapplier.New(p, st.parser, st.composer)
 			v1 := &vcommon.ProtocolVersion{VersionStr: "1.0", P: p}
 			p2 := p
@@ -266,7 +268,14 @@ func All() []Scenario {
 			st.ver, _ = verprovider.New([]protocol.Version{v1, v2})
 			for i := 0; i < 3; i++ {
 				rec, upd, next := keys.New("Ed25519", 300+i), keys.New("P-256", 300+i), keys.New("Ed25519", 310+i)
-				patches := []any{ops.AddKeysPatch("[" + ops.PubKeyJSON(fmt.Sprintf("key%d", i), keys.New("P-256", 320+i), `["authentication"]`) + "]"),
+				keyJSON := ops.PubKeyJSON(fmt.Sprintf("key%d", i), keys.New("P-256", 320+i), `["authentication"]`)
+				switch i {
+				case 1:
+					keyJSON = strings.Replace(ops.PubKeyJSON("key1", keys.New("Ed25519", 321), `["authentication"]`), "JsonWebKey2020", "Ed25519VerificationKey2018", 1)
+				case 2:
+					keyJSON = strings.Replace(ops.PubKeyJSON("key2", keys.New("secp256k1", 322), `["authentication"]`), "JsonWebKey2020", "EcdsaSecp256k1VerificationKey2019", 1)
+				}
+				patches := []any{ops.AddKeysPatch("[" + keyJSON + "]"),
 					ops.ParseJSON(fmt.Sprintf(`{"action":"ietf-json-patch","patches":[{"op":"add","path":"/t%d","value":{"n":%d}}]}`, i, i))}
 				c := ops.ValidCreate(rec, upd, patches, 18, fmt.Sprintf("origin-%d", i))
 				st.creates = append(st.creates, ops.Bytes(c))
@@ -315,7 +324,8 @@ func All() []Scenario {
 						cp := *rm
 						cp.Doc = document.Document{"k": float64(i)}
 						r2, e2 := st.docT.TransformDocument(&cp, info)
-						return hashJSON([]any{r1, fmt.Sprint(e1), r2, fmt.Sprint(e2)})
+						r3, e3 := st.didT2.TransformDocument(rm, info)
+						return hashJSON([]any{r1, fmt.Sprint(e1), r2, fmt.Sprint(e2), r3, fmt.Sprint(e3)})
 					})
 					r.Call(t, "versions", func() string {
 						c, _ := st.ver.Current()
